@@ -117,8 +117,12 @@ def run_check(pid, groups, tier, level_text, assumptions, outside_claim, techniq
     except SystemExit:
         infra.append('build failed')
     npar = max(1, min(len(groups), int(os.environ.get('VERIF_GROUP_PAR', '6'))))
+    # path children of all groups draw from one pool of tokens (one per core); every group may always run one path without a token
+    import multiprocessing
+    ncpu = int(os.environ.get('VERIF_CORES', '16'))
+    EX.POOL = multiprocessing.BoundedSemaphore(max(1, ncpu - min(npar, len(groups))))
     for g in groups:
-        if getattr(g, 'workers', None) is None: g.workers = max(2, 16 // npar)
+        if getattr(g, 'workers', None) is None: g.workers = ncpu
     pending = list(enumerate(groups)); running = {}; results = {}
     while (pending or running) and not infra:
         while pending and len(running) < npar:
